@@ -196,6 +196,9 @@ func C08(c *core.Ctx) {
 	// that a later response overwrites): the replay must answer the request it is keyed by
 	if a := getTxAnchors(c, "R2"); a.ok {
 		checkSendCaches(c, "R2", a.rxSend, p.Field(pkgPfcp, "RxTransaction", "msgBuf"), p.Field(pkgPfcp, "RxTransaction", "raddr"), a)
+		// the response is matched to its request through the (peer, sequence) key: every site that builds or
+		// looks up that key uses one format (shared with C06 R2)
+		checkKeySites(c, "R2", a)
 	}
 	if mainFn := fnOf(c, "R2", pkgPfcp, "PfcpServer", "main"); mainFn != nil {
 		for _, ci := range core.Calls(mainFn, p.Method(pkgPfcp, "PfcpServer", "reqDispacher")) {
